@@ -8,7 +8,10 @@ PROPERTY = "C09"
 META = {
     "level": "model_checking",
     "functions": ["the harness families of C01-C08, C10, C14, C15 re-run per configuration: permutation back end x86-64 asm / C64 / C32 / direct-XOR / generic, share triples, "
-                  "and the acquire/release checker build (ASCON_FORCE_GENERIC + ASCON_CHECK_ACQUIRE_RELEASE) with abort() turned into an assertion"],
+                  "and the acquire/release checker build (ASCON_FORCE_GENERIC + ASCON_CHECK_ACQUIRE_RELEASE) with abort() turned into an assertion",
+                  "balance:* - masked key set-up + masked AEAD encrypt + decrypt of each algorithm in the checker build with the real src/random/ascon-trng-mixer.c "
+                  "(system seed source and permutations stubbed with arbitrary values), every share triple (quick: 6 triples incl. all d=1 shapes)",
+                  "cfg-bytes:* - the aliased byte-range primitives on all five back ends against the one byte-array model"],
     "bounds": "configurations are enumerated (5 back ends; key/data/max share triples incl. clamped ones; checker build); per configuration a cross-section of the shape grids of the other properties, "
               "all data symbolic; per-back-end pre-computed initial values (XOF, HASH, fixed-32, KMAC, KMACA, in the S / W / B encodings) compared with the specification permutation of the generic first block",
     "outside": "host feature macros other than those of this host's config.h; other compilers; the non-host assembly back ends (C18)",
@@ -88,6 +91,21 @@ def queries(tier):
                 q = masked_query(Query, "C09", alg, r + 1, r + 1, be, sh, mode=0)
                 q.name = "shares:" + q.name
                 q.group = "shares"
+                qs.append(q)
+    # acquire/release balance where the permutation state and the random source meet: masked AEADs with the host's real
+    # random front end (which acquires its own state per draw), every share triple, checker build
+    btriples = [(2, 1, 2), (4, 1, 4), (3, 2, 3), (4, 2, 4), (4, 4, 4), (3, 1, 3)] if tier == "quick" else SHARE_TRIPLES
+    for sh in btriples:
+        for alg in (0, 1, 2):
+            r = aead_rate(alg)
+            for (ad, m) in ([(r + 1, r + 1)] if tier == "quick" else [(0, 0), (r + 1, r + 1), (r, 2 * r)]):
+                q = Query("balance:masked-%s:k%dd%dm%d:ad%d:m%d" % (ALGN[alg], sh[0], sh[1], sh[2], ad, m), "harness/C09/balance.c",
+                          repo_srcs=MASKED_AEAD_SRCS[alg] + MASKED_COMMON + [MASKED_WORD["generic"], "src/core/ascon-direct-xor.c", "src/core/ascon-clean.c",
+                                                                         "src/random/ascon-trng-mixer.c"],
+                          extra_srcs=["harness/common/abort_stub.c"], backend="generic_check", shares=sh, form="I", with_backend=False, with_spec=False,
+                          defs={"ALG": alg, "ADLEN": ad, "MLEN": m}, cc_flags=["-Dabort=verif_abort"], unwind=200, timeout=900,
+                          shape={"alg": ALGN[alg], "shares": "%d/%d/%d" % sh, "adlen": ad, "mlen": m, "trng": "ascon-trng-mixer.c (real)", "checker": True})
+                q.group = "balance"
                 qs.append(q)
     out, names = [], set()
     for q in qs:
